@@ -15,36 +15,40 @@ open VaxisModel.Model.Vxfw
 /-- Which constructor of the model's `RunEv` (and which model function) an arm of the Run switch
 is transcribed as. -/
 def runArmModel : List (String × String × List String) := [
-  ("vaxis.Resize",   "RunEv.resize   : redraw := true",               ["set a.redraw"]),
-  ("vaxis.Mouse",    "RunEv.mouse    : mouseHandleEvent",             ["call mh.handleEvent"]),
-  ("vaxis.FocusIn",  "RunEv.focusIn  : notify root MouseEnter",       ["call w.HandleEvent", "call a.handleCommand"]),
-  ("vaxis.FocusOut", "RunEv.focusOut : mouse := none; mouseExit",     ["set mh.mouse", "call mh.mouseExit"]),
-  ("vaxis.Key",      "RunEv.key      : handleEvent",                  ["call fh.handleEvent"]),
-  ("vaxis.Redraw",   "RunEv.redraw   : redraw := true",               ["set a.redraw"]),
-  ("default",        "RunEv.other    : handleEvent",                  ["call fh.handleEvent"])]
+  ("vaxis.Resize",   "RunEv.resize   : redraw := true",               ["set redraw"]),
+  ("vaxis.Mouse",    "RunEv.mouse    : mouseHandleEvent",             ["call handleEvent"]),
+  ("vaxis.FocusIn",  "RunEv.focusIn  : notify root MouseEnter",       ["call HandleEvent", "call handleCommand"]),
+  ("vaxis.FocusOut", "RunEv.focusOut : mouse := none; mouseExit",     ["set mouse", "call mouseExit"]),
+  ("vaxis.Key",      "RunEv.key      : handleEvent",                  ["call handleEvent"]),
+  ("vaxis.Redraw",   "RunEv.redraw   : redraw := true",               ["set redraw"]),
+  ("default",        "RunEv.other    : handleEvent",                  ["call handleEvent"])]
 
 /-- Which constructor of `Cmd` / `Atom` an arm of `handleCommand` is transcribed as. -/
 def commandArmModel : List (String × String × List String) := [
-  ("BatchCmd",            "Cmd.batch : flatten",          ["range", "call a.handleCommand"]),
-  ("[]Command",           "Cmd.slice : flatten",          ["range", "call a.handleCommand"]),
-  ("RedrawCmd",           "Atom.redraw",                  ["set a.redraw"]),
-  ("RefreshCmd",          "Atom.refresh",                 ["set a.refresh"]),
-  ("QuitCmd",             "Atom.quit",                    ["set a.shouldQuit"]),
-  ("ConsumeEventCmd",     "Atom.consume",                 ["set a.consumeEvent"]),
-  ("FocusWidgetCmd",      "Atom.focus : focusWidgetWith", ["call fh.focusWidget", "call log.Error"]),
-  ("SetMouseShapeCmd",    "Atom.other",                   ["call vx.SetMouseShape", "call vaxis.MouseShape"]),
-  ("SetTitleCmd",         "Atom.other",                   ["call vx.SetTitle"]),
-  ("CopyToClipboardCmd",  "Atom.other",                   ["call vx.ClipboardPush"]),
-  ("SendNotificationCmd", "Atom.other",                   ["call vx.Notify"]),
-  ("DebugCmd",            "Atom.debug",                   ["set a.debug", "set a.redraw"])]
+  ("BatchCmd",            "Cmd.batch : flatten",          ["range", "call handleCommand"]),
+  ("[]Command",           "Cmd.slice : flatten",          ["range", "call handleCommand"]),
+  ("RedrawCmd",           "Atom.redraw",                  ["set redraw"]),
+  ("RefreshCmd",          "Atom.refresh",                 ["set refresh"]),
+  ("QuitCmd",             "Atom.quit",                    ["set shouldQuit"]),
+  ("ConsumeEventCmd",     "Atom.consume",                 ["set consumeEvent"]),
+  ("FocusWidgetCmd",      "Atom.focus : focusWidgetWith", ["call focusWidget", "call Error"]),
+  ("SetMouseShapeCmd",    "Atom.other",                   ["call SetMouseShape", "call MouseShape"]),
+  ("SetTitleCmd",         "Atom.other",                   ["call SetTitle"]),
+  ("CopyToClipboardCmd",  "Atom.other",                   ["call ClipboardPush"]),
+  ("SendNotificationCmd", "Atom.other",                   ["call Notify"]),
+  ("DebugCmd",            "Atom.debug",                   ["set debug", "set redraw"])]
+
+/-- Same arms, in any order (the order of type-switch arms over distinct types does not matter). -/
+def sameArms (a b : List (String × List String)) : Bool :=
+  a.length == b.length && a.all (b.contains ·) && b.all (a.contains ·)
 
 /-- The Run loop's event switch has exactly the arms the model's `runEvent` transcribes. -/
 theorem run_switch_covered :
-    Gen.VxfwCases.runArms = runArmModel.map (fun x => (x.1, x.2.2)) := by decide
+    sameArms Gen.VxfwCases.runArms (runArmModel.map (fun x => (x.1, x.2.2))) = true := by decide
 
 /-- `handleCommand` has exactly the arms the model's `Cmd.flatten` / `execAtom` transcribe. -/
 theorem handle_command_covered :
-    Gen.VxfwCases.handleCommandArms = commandArmModel.map (fun x => (x.1, x.2.2)) := by decide
+    sameArms Gen.VxfwCases.handleCommandArms (commandArmModel.map (fun x => (x.1, x.2.2))) = true := by decide
 
 /-- `render` sorts the children with `sort.Slice` (one call), which for ≤ 12 elements is the
 stable insertion sort modelled by `sortKids`. -/
